@@ -156,7 +156,7 @@ impl Check for C08 {
         let max_seq = ctx.tier.pick(3usize, 4usize);
         let max_tree = ctx.tier.pick(4usize, 5usize);
         ctx.rule = format!(
-            "(1) all operator sequences e0 o1 e1 .. on en, n <= {}, over the 15 binary operators and `..`; every assignment of {} operand forms (name, literal, negative literal, call, index, range index, property, type property, postfix forms on a negative literal, chained calls, string, list literal) for n <= 2 in three spacing styles, one varied operand for larger n; the real parser's tree (hook ast) must equal the reference parser's tree, and a text one parser rejects the other must reject; (2) all expression trees with <= {} operator nodes over one operator per tier (all 16 at the two topmost levels), printed with only the necessary parentheses: the real parser must return the tree itself; (3) every subset (<= 64 per tree) of redundant parenthesis placements leaves the tree unchanged; (4) all operator pairs evaluated on operands for which the two groupings print different values; non-trivial = all",
+            "(1) all operator sequences e0 o1 e1 .. on en, n <= {}, over the 15 binary operators and `..`; every assignment of {} operand forms (name, literal, negative literal, call, index, range index, property, type property, postfix forms on a negative literal, chained calls, string, list literal) for n <= 2 in three spacing styles, one varied operand for larger n; the real parser's tree (hook ast) must equal the reference parser's tree, and a text one parser rejects the other must reject; (2) all expression trees with <= {} operator nodes over one operator per tier (all 16 at the two topmost levels), printed with only the necessary parentheses: the real parser must return the tree itself; (3) every subset (<= 64 per tree) of redundant parenthesis placements leaves the tree unchanged; (4) all operator pairs evaluated, bare and with either grouping parenthesised, on 13 operand triples for which the groupings print different values and on 10 triples at the edges of the 64-bit range where the grouping decides whether an intermediate result overflows; non-trivial = all",
             max_seq,
             OPERANDS.len(),
             max_tree
@@ -282,6 +282,33 @@ impl Check for C08 {
                     cases.push(Case::new(format!("print({} {} {} {} {})\n", a, o1, b, o2, c3), T_EVAL, format!("eval {} {} on {} {} {}", o1, o2, a, b, c3)));
                     cases.push(Case::new(format!("a := {}\nb := {}\nc := {}\nprint(a {} b {} c)\n", a, b, c3, o1, o2), T_EVAL, format!("eval {} {} on variables {} {} {}", o1, o2, a, b, c3)));
                     cases.push(Case::new(format!("a := {}\nb := {}\nc := {}\nprint((a {} b) {} c)\nprint(a {} (b {} c))\n", a, b, c3, o1, o2, o1, o2), T_EVAL, format!("eval parenthesised {} {} on variables {} {} {}", o1, o2, a, b, c3)));
+                }
+            }
+        }
+        // the same at the edges of the integer range, where the grouping decides whether an
+        // intermediate result overflows; each grouping is its own program so that a reported
+        // overflow in one does not hide the other
+        let max = "9223372036854775807";
+        let min = "-9223372036854775807 - 1";
+        let edge: [(&str, &str, &str); 10] = [
+            (max, "1", "-1"),
+            ("-1", max, "1"),
+            (min, "-1", "1"),
+            ("1", min, "-1"),
+            (max, max, min),
+            (min, max, "1"),
+            ("2", max, "0"),
+            (min, "-1", "-1"),
+            ("-1", min, "-1"),
+            ("3037000500", "3037000500", "-1"),
+        ];
+        for o1 in &OPS {
+            for o2 in &OPS {
+                for (a, b, c3) in edge {
+                    let pre = format!("a := {}\nb := {}\nc := {}\n", a, b, c3);
+                    cases.push(Case::new(format!("{}print(a {} b {} c)\n", pre, o1, o2), T_EVAL, format!("eval {} {} at the edge {} | {} | {}", o1, o2, a, b, c3)));
+                    cases.push(Case::new(format!("{}print((a {} b) {} c)\n", pre, o1, o2), T_EVAL, format!("eval left-parenthesised {} {} at the edge {} | {} | {}", o1, o2, a, b, c3)));
+                    cases.push(Case::new(format!("{}print(a {} (b {} c))\n", pre, o1, o2), T_EVAL, format!("eval right-parenthesised {} {} at the edge {} | {} | {}", o1, o2, a, b, c3)));
                 }
             }
         }
